@@ -61,4 +61,7 @@ EnergyGrowth == 4
 
 (* "modest multiple" of a tolerance (C15) and "modest constant" (C05)         *)
 ModestK == 10
+(* C05 "a modest constant times (atol + rtol |y|) times the problem's own error amplification": the largest value     *)
+(* observed on the unmodified library is 20 (unequal tolerances, very large initial step, 5 steps).                  *)
+AccuracyK == 32
 =============================================================================
